@@ -1,5 +1,6 @@
 ---- MODULE FeaturesMC ----
 EXTENDS Features, IOUtils
 ASSUME Export(IOEnv.OUTF)
-ASSUME PrintT(<<"EMIT", ToJson([allsound |-> AllSound, n |-> Cardinality(Models), unsound |-> Cardinality(Unsound)])>>)
+ASSUME ExportPairs(IOEnv.OUTF \o ".pairs")
+ASSUME PrintT(<<"EMIT", ToJson([allsound |-> AllSound, n |-> Cardinality(Models), unsound |-> Cardinality(Unsound), pairs |-> Cardinality(Pairs), pairssound |-> PairsSound])>>)
 ====
